@@ -1,9 +1,302 @@
-(* C14 — property theorems only. Every theorem is closed by [exact] of a lemma proved elsewhere. *)
-From KV Require Import Yaml.Fns Yaml.FnsProofs.
+(* C14 — property theorems only. Every theorem is closed by [exact] of a lemma proved elsewhere
+   (Yaml/FnsProofs.v, Yaml/JsonRefProofs.v, Yaml/FieldSpecProofs.v).
 
+   Vocabulary (Yaml/Fns.v = executable model of kyaml PathGetter & co., Yaml/FnsSpec.v = spec notions):
+     walk cr ps k n      PathGetter{Path: ps, Create: cr} on n, then the filter k on the node found
+     lookup ps n         rn.Pipe(Lookup(ps...))
+     put ps name v n     rn.Pipe(LookupCreate(MappingNode, ps...), SetField(name, v))
+     put_scalar ps v n   rn.Pipe(LookupCreate(ScalarNode, ps...), FieldSetter{Value: v})
+     clear_at ps name n  rn.Pipe(Lookup(ps...), Clear(name))
+   Hypotheses that the real code needs (each shown necessary by a [_refuted] theorem below and mirrored
+   by the Go oracles):
+     (H1) stable ps k / stable_put ps name / stable_put_scalar ps : the write does not overwrite the field a
+          [nm=v] selector on its own path matches on
+     (H2) no_null_path ps n : no !!null node on the existing part of the path (kyaml drops such writes) *)
+From KV Require Import Yaml.Fns Yaml.FnsSpec Yaml.FnsProofs Yaml.JsonRef Yaml.JsonRefProofs.
+From KV Require Import Yaml.FieldSpec Yaml.FieldSpecSpec Yaml.FieldSpecProofs Yaml.FieldSpecGenProofs.
+
+(* ---------- lookup is pure ---------- *)
 (* Looking a path up (no creation) never modifies the document, whatever the path and document. *)
 Theorem C14_lookup_pure :
   forall (ps : list part) (n n' : node) (r : option node),
     walk None ps k_get n = Ok (n', r) -> n' = n.
 Proof. exact (fun ps => walk_nocreate_pure k_get ps k_get_pure). Qed.
 Print Assumptions C14_lookup_pure.
+
+(* ---------- PUT-GET ---------- *)
+(* General form: after a successful walk (with or without creation) that applied k at the end of the path,
+   looking the same path up finds exactly the node k produced, and changes nothing. *)
+Theorem C14_put_get_walk :
+  forall (A : Type) (cr : option kind) (ps : list part) (k : node -> res (node * A)),
+    stable ps k ->
+    forall (n n' : node) (a : A),
+      no_null_path ps n = true ->
+      walk cr ps k n = Ok (n', Some a) ->
+      exists x x', is_null x = false /\ k x = Ok (x', a) /\ walk None ps k_get n' = Ok (n', Some x').
+Proof. exact (@walk_put_get). Qed.
+Print Assumptions C14_put_get_walk.
+
+(* LookupCreate + SetField, then Lookup of path+field returns the value set (up to the scalar style, which
+   FieldSetter takes from the value previously there or forces to double quotes for YAML-1.1 keywords). *)
+Theorem C14_put_get :
+  forall (nonstr : string -> bool) (ps : list part) (name : string) (v n n' : node),
+    is_null v = false -> stable_put ps name = true -> no_null_path ps n = true ->
+    put nonstr ps name v n = Ok (n', Some tt) ->
+    exists s, lookup (ps ++ [PKey name]) n' = Ok (Some (with_style s v)).
+Proof. exact put_get. Qed.
+Print Assumptions C14_put_get.
+
+Theorem C14_put_scalar_get :
+  forall (ps : list part) (v n n' : node),
+    is_null v = false -> stable_put_scalar ps = true -> no_null_path ps n = true ->
+    put_scalar ps v n = Ok (n', Some tt) ->
+    exists s, lookup ps n' = Ok (Some (with_style s v)).
+Proof. exact put_scalar_get. Qed.
+Print Assumptions C14_put_scalar_get.
+
+(* ---------- GET-PUT ---------- *)
+(* Writing back what is there changes nothing (no hypothesis on the path or the document). *)
+Theorem C14_get_put_walk :
+  forall (A : Type) (cr : option kind) (ps : list part) (k : node -> res (node * A)) (n x : node) (a : A),
+    lookup ps n = Ok (Some x) -> k x = Ok (x, a) -> walk cr ps k n = Ok (n, Some a).
+Proof. exact (@walk_get_put). Qed.
+Print Assumptions C14_get_put_walk.
+
+Theorem C14_get_put :
+  forall (nonstr : string -> bool) (cr : option kind) (ps : list part) (name : string) (v n : node),
+    is_null v = false ->
+    lookup (ps ++ [PKey name]) n = Ok (Some v) ->
+    walk cr ps (k_set_field nonstr name v) n = Ok (n, Some tt).
+Proof. exact get_put. Qed.
+Print Assumptions C14_get_put.
+
+(* ---------- PUT-PUT ---------- *)
+(* Fusion: a second walk along the same path equals one walk with the two continuations in sequence. *)
+Theorem C14_put_put_fusion :
+  forall (A B : Type) (cr : option kind) (ps : list part)
+         (k1 : node -> res (node * A)) (k2 : node -> res (node * B)),
+    stable ps k1 ->
+    forall (n n1 : node) (a1 : A),
+      no_null_path ps n = true ->
+      walk cr ps k1 n = Ok (n1, Some a1) ->
+      walk cr ps k2 n1 = walk cr ps (kseq k1 k2) n.
+Proof. exact (@walk_fusion). Qed.
+Print Assumptions C14_put_put_fusion.
+
+(* Repeating a put changes nothing further. *)
+Theorem C14_put_put_idempotent :
+  forall (nonstr : string -> bool) (cr : option kind) (ps : list part) (name : string) (v n n1 : node),
+    is_null v = false -> stable_put ps name = true -> no_null_path ps n = true ->
+    walk cr ps (k_set_field nonstr name v) n = Ok (n1, Some tt) ->
+    walk cr ps (k_set_field nonstr name v) n1 = Ok (n1, Some tt).
+Proof. exact put_idempotent. Qed.
+Print Assumptions C14_put_put_idempotent.
+
+(* Last write wins: put v2 after put v1 gives what put v2 alone gives — same outcome class, same document up
+   to scalar styles (the second write inherits the style of what the first one stored). *)
+Theorem C14_put_put_last_wins :
+  forall (nonstr : string -> bool) (cr : option kind) (ps : list part) (name : string) (v1 v2 n n1 : node),
+    is_null v1 = false -> is_null v2 = false ->
+    stable_put ps name = true -> no_null_path ps n = true ->
+    walk cr ps (k_set_field nonstr name v1) n = Ok (n1, Some tt) ->
+    res_unstyle_eq (walk cr ps (k_set_field nonstr name v2) n1) (walk cr ps (k_set_field nonstr name v2) n).
+Proof. exact put_last_wins. Qed.
+Print Assumptions C14_put_put_last_wins.
+
+(* ---------- FRAME ---------- *)
+(* General form: a walk along ps (whatever it found, created, or failed to find) leaves the outcome of Lookup
+   unchanged for every path q that diverges from ps at a key, an index or a selector value.  The side
+   condition excludes exactly one thing: q reading the key field of a list element that the walk appended. *)
+Theorem C14_frame_walk :
+  forall (A : Type) (cr : option kind) (ps : list part) (k : node -> res (node * A)),
+    stable ps k ->
+    forall (qs : list part) (n n' : node) (r : option A),
+      diverges ps qs ->
+      (no_sel_key_read qs \/ lookup qs n <> Ok None) ->
+      walk cr ps k n = Ok (n', r) ->
+      lookup qs n' = lookup qs n.
+Proof. exact (@walk_frame). Qed.
+Print Assumptions C14_frame_walk.
+
+(* For put: q may also diverge at the field written (siblings of the field are untouched). *)
+Theorem C14_frame :
+  forall (nonstr : string -> bool) (cr : option kind) (ps : list part) (name : string) (v : node)
+         (qs : list part) (n n' : node) (r : option unit),
+    stable_put ps name = true ->
+    diverges (ps ++ [PKey name]) qs ->
+    (no_sel_key_read qs \/ lookup qs n <> Ok None) ->
+    walk cr ps (k_set_field nonstr name v) n = Ok (n', r) ->
+    lookup qs n' = lookup qs n.
+Proof. exact put_frame. Qed.
+Print Assumptions C14_frame.
+
+(* ---------- ABSENT PATH ---------- *)
+(* Clearing a field whose path is absent leaves the document untouched. *)
+Theorem C14_absent_clear_noop :
+  forall (ps : list part) (name : string) (n : node),
+    lookup (ps ++ [PKey name]) n = Ok None -> exists r, clear_at ps name n = Ok (n, r).
+Proof. exact absent_clear_noop. Qed.
+Print Assumptions C14_absent_clear_noop.
+
+(* ---------- REFINEMENT to the reference model on plain JSON values (Yaml/JsonRef.v) ---------- *)
+Theorem C14_refines_json_get :
+  forall (ps : list part) (n x : node),
+    lookup ps n = Ok (Some x) -> jget ps (to_json n) = Some (to_json x).
+Proof. exact lookup_refines_found. Qed.
+Print Assumptions C14_refines_json_get.
+
+Theorem C14_refines_json_get_absent :
+  forall (ps : list part) (n : node), lookup ps n = Ok None -> jget ps (to_json n) = None.
+Proof. exact lookup_refines_absent. Qed.
+Print Assumptions C14_refines_json_get_absent.
+
+Theorem C14_refines_json_walk :
+  forall (A : Type) (cr : option kind) (ps : list part) (k : node -> res (node * A)) (f : json -> option json),
+    (forall x x' a, k x = Ok (x', a) -> is_null x = false -> f (to_json x) = Some (to_json x')) ->
+    forall (n n' : node) (a : A),
+      no_null_path ps n = true -> walk cr ps k n = Ok (n', Some a) ->
+      jupd cr ps f (to_json n) = Some (to_json n').
+Proof. exact (@walk_refines). Qed.
+Print Assumptions C14_refines_json_walk.
+
+(* to_json (put ps name v n) = jput (ps ++ [name]) (to_json v) (to_json n); [tagged v]: v is not an untagged
+   scalar (for those the JSON view depends on the quoting style FieldSetter chooses). *)
+Theorem C14_refines_json :
+  forall (nonstr : string -> bool) (ps : list part) (name : string) (v n n' : node),
+    is_null v = false -> tagged v = true -> no_null_path ps n = true ->
+    put nonstr ps name v n = Ok (n', Some tt) ->
+    jput (ps ++ [PKey name]) (to_json v) (to_json n) = Some (to_json n').
+Proof. exact put_refines. Qed.
+Print Assumptions C14_refines_json.
+
+(* ---------- NO PANIC ---------- *)
+(* No path operation panics, for all paths and all documents. (Until the repo fix 5cf7cc6, "-" on an empty or
+   null sequence indexed elems[-1]: former finding C14/panic-last-on-empty, former theorems
+   C14_last_on_empty_refuted / C14_lookup_panic_only_last / C14_no_panic_partial.) *)
+Theorem C14_no_panic :
+  forall (A : Type) (cr : option kind) (ps : list part) (k : node -> res (node * A)),
+    (forall x, k x <> Panic) -> forall n, walk cr ps k n <> Panic.
+Proof. exact (@walk_no_panic). Qed.
+Print Assumptions C14_no_panic.
+
+Theorem C14_no_panic_lookup : forall (ps : list part) (n : node), lookup ps n <> Panic.
+Proof. exact lookup_no_panic. Qed.
+Print Assumptions C14_no_panic_lookup.
+
+Theorem C14_no_panic_lookup_create :
+  forall (leaf : kind) (ps : list part) (n : node), lookup_create leaf ps n <> Panic.
+Proof. exact lookup_create_no_panic. Qed.
+Print Assumptions C14_no_panic_lookup_create.
+
+Theorem C14_no_panic_put :
+  forall (nonstr : string -> bool) (ps : list part) (name : string) (v n : node),
+    put nonstr ps name v n <> Panic /\ put_nocreate nonstr ps name v n <> Panic.
+Proof. exact (fun nonstr ps name v n => conj (put_no_panic nonstr ps name v n) (put_nocreate_no_panic nonstr ps name v n)). Qed.
+Print Assumptions C14_no_panic_put.
+
+Theorem C14_no_panic_put_scalar_clear :
+  forall (ps : list part) (name : string) (v n : node),
+    put_scalar ps v n <> Panic /\ clear_at ps name n <> Panic.
+Proof. exact (fun ps name v n => conj (put_scalar_no_panic ps v n) (clear_at_no_panic ps name n)). Qed.
+Print Assumptions C14_no_panic_put_scalar_clear.
+
+(* "-" on an empty list or a null node finds nothing *)
+Theorem C14_last_on_empty_absent :
+  forall (A : Type) (cr : option kind) (ps : list part) (k : node -> res (node * A)) (s : style) (v : string),
+    walk cr (PLast :: ps) k (Seq []) = Ok (Seq [], None) /\
+    walk cr (PLast :: ps) k (Scalar TNull s v) = Ok (Scalar TNull s v, None).
+Proof. exact (fun A cr ps k s v => conj (walk_last_on_empty cr ps k) (walk_last_on_null cr ps k s v)). Qed.
+Print Assumptions C14_last_on_empty_absent.
+
+(* ---------- the hypotheses cannot be dropped ---------- *)
+(* without (H1): the put succeeds but the path no longer finds the element *)
+Theorem C14_put_get_without_H1_refuted :
+  exists ps name v n n',
+    is_null v = false /\ no_null_path ps n = true /\ put (fun _ => false) ps name v n = Ok (n', Some tt) /\
+    lookup (ps ++ [PKey name]) n' = Ok None.
+Proof. exact put_get_needs_stable. Qed.
+Print Assumptions C14_put_get_without_H1_refuted.
+
+(* without (H2): the put through a null node reports success and the document is unchanged *)
+Theorem C14_put_get_without_H2_refuted :
+  exists ps name v n n',
+    is_null v = false /\ stable_put ps name = true /\ put (fun _ => false) ps name v n = Ok (n', Some tt) /\
+    lookup (ps ++ [PKey name]) n' = Ok None /\ n' = n.
+Proof. exact put_get_needs_no_null. Qed.
+Print Assumptions C14_put_get_without_H2_refuted.
+
+(* without the side condition of the frame law: appending the element [name=z] creates its name field *)
+Theorem C14_frame_without_side_condition_refuted :
+  exists ps name v qs n n',
+    stable_put ps name = true /\ diverges (ps ++ [PKey name]) qs /\
+    put (fun _ => false) ps name v n = Ok (n', Some tt) /\ lookup qs n = Ok None /\ lookup qs n' <> Ok None.
+Proof. exact frame_needs_side_condition. Qed.
+Print Assumptions C14_frame_without_side_condition_refuted.
+
+(* ==================== field-spec traversal (api/filters/fieldspec, fsslice) ==================== *)
+(* Yaml/FieldSpec.v: fs_filter = Filter.filter/handleMap/handleSequence, fs_apply = Filter.Filter (GVK test +
+   PathSplitter), fsslice_apply = fsslice.Filter.  Yaml/FieldSpecSpec.v: positions (get_at / upd_at /
+   apply_at), the reference interpretation [denotes] of a slash path, [fs_diverges]. *)
+
+(* The slash path visits exactly the nodes its reference interpretation denotes: without creation and for
+   plain segments, the filter succeeds with d' iff [denotes] is defined and applying SetValue at the denoted
+   positions, in document order, yields d'.  (For all SetValue functions, hence SetValue is invoked on
+   exactly those nodes; a scalar on the way makes both sides fail.) *)
+Theorem C14_fieldspec_denotes :
+  forall (create_kind : option kind) (create_tag : tag) (set_value : node -> res node) (path : list string),
+    forallb plain_seg path = true ->
+    forall obj obj' : node,
+      fs_filter create_kind create_tag set_value false path obj = Ok obj' <->
+      (exists qs : list jpath, denotes path obj = Ok qs /\ apply_at set_value qs obj = Ok obj').
+Proof. exact fs_filter_denotes. Qed.
+Print Assumptions C14_fieldspec_denotes.
+
+(* Frame: a position that leaves the field-spec path at some key keeps its value, whatever SetValue does,
+   with or without creation, "[]" hints and null promotion. *)
+Theorem C14_fieldspec_frame :
+  forall (create_kind : option kind) (create_tag : tag) (set_value : node -> res node) (create : bool)
+         (path : list string),
+    forallb seg_ok path = true ->
+    forall (obj obj' : node) (q : jpath),
+      fs_filter create_kind create_tag set_value create path obj = Ok obj' ->
+      fs_diverges path q = true -> get_at q obj' = get_at q obj.
+Proof. exact fs_filter_frame. Qed.
+Print Assumptions C14_fieldspec_frame.
+
+Theorem C14_fieldspec_apply_frame :
+  forall (create_kind : option kind) (create_tag : tag) (set_value : node -> res node) (fs : fieldspec)
+         (obj obj' : node) (q : jpath),
+    forallb seg_ok (fs_segments fs) = true ->
+    fs_apply create_kind create_tag set_value fs obj = Ok obj' ->
+    fs_diverges (fs_segments fs) q = true -> get_at q obj' = get_at q obj.
+Proof. exact fs_apply_frame. Qed.
+Print Assumptions C14_fieldspec_apply_frame.
+
+Theorem C14_fsslice_frame :
+  forall (create_kind : option kind) (create_tag : tag) (set_value : node -> res node) (l : list fieldspec)
+         (obj obj' : node) (q : jpath),
+    Forall (fun fs => forallb seg_ok (fs_segments fs) = true /\ fs_diverges (fs_segments fs) q = true) l ->
+    fsslice_apply create_kind create_tag set_value l obj = Ok obj' ->
+    get_at q obj' = get_at q obj.
+Proof. exact fsslice_apply_frame. Qed.
+Print Assumptions C14_fsslice_frame.
+
+(* ---------- obligations over the tables generated from /repo (Gen/FieldSpecs.v) ---------- *)
+(* every segment of every builtin field-spec path is a plain map key, possibly with a "[]" hint *)
+Theorem Gen_C14_fieldspec_segments_ok :
+  forallb (fun fs => forallb seg_ok (fs_segments fs)) gen_all_fs = true.
+Proof. exact gen_fs_segments_ok. Qed.
+Print Assumptions Gen_C14_fieldspec_segments_ok.
+
+(* every builtin field spec that does not create has plain segments only *)
+Theorem Gen_C14_fieldspec_nocreate_plain :
+  forallb (fun fs => fs_create fs || forallb plain_seg (fs_segments fs)) gen_all_fs = true.
+Proof. exact gen_fs_nocreate_plain. Qed.
+Print Assumptions Gen_C14_fieldspec_nocreate_plain.
+
+Theorem Gen_C14_fieldspec_tables_nonempty :
+  (10 <=? List.length gen_all_fs)%nat = true /\
+  (1 <=? List.length (filter (fun fs => negb (fs_create fs)) gen_all_fs))%nat = true /\
+  (1 <=? List.length (filter (fun fs => existsb seg_hint (fs_segments fs)) gen_all_fs))%nat = true.
+Proof. exact gen_fs_nonempty. Qed.
+Print Assumptions Gen_C14_fieldspec_tables_nonempty.
